@@ -250,11 +250,15 @@ AcceptExactly == accepted # "-" => (accepted = "yes" <=> (mn[2] \in ValidWordCou
 Deterministic == derived # None =>
                    (derived[1] = derived[2] <=> Cat(din[1], din[2]) = Cat(din[3], din[4]))
 
-(* Leg B export: every completed scenario is printed once *)
-EmitDone == pc = "done" =>
-   CASE flow = "sign" -> PrintT(<<"OUT", "sign", CurveOf(key), form, msgform, tamper, SigKindOf(sig), verdict, cverdict>>)
-     [] flow = "export" -> PrintT(<<"OUT", "export", CurveOf(key), opt, ipass, enc[2], IF imported = key THEN "same" ELSE "fail", IF pkh = None THEN "-" ELSE pkh[2]>>)
-     [] flow = "mnemonic" -> IF derived = None
-                             THEN PrintT(<<"OUT", "mnemonic", mn[2], mn[3], mn[4], mn[5], accepted>>)
-                             ELSE PrintT(<<"OUT", "derive", mn[2], mn[5], dcurve, din, derived[1] = derived[2]>>)
+(* Leg B export: every completed scenario is printed once (TLC evaluates an invariant once per distinct state).
+   A mnemonic row is printed in the state that follows the acceptance decision. *)
+EmitDone ==
+  /\ (pc = "done" /\ flow = "sign") =>
+        PrintT(<<"OUT", "sign", CurveOf(key), form, msgform, tamper, SigKindOf(sig), verdict, cverdict>>)
+  /\ (pc = "done" /\ flow = "export") =>
+        PrintT(<<"OUT", "export", CurveOf(key), opt, ipass, enc[2], IF imported = key THEN "same" ELSE "fail", IF pkh = None THEN "-" ELSE pkh[2]>>)
+  /\ (flow = "mnemonic" /\ accepted # "-" /\ derived = None) =>
+        PrintT(<<"OUT", "mnemonic", mn[2], mn[3], mn[4], mn[5], accepted>>)
+  /\ (pc = "done" /\ derived # None) =>
+        PrintT(<<"OUT", "derive", mn[2], mn[5], dcurve, din, derived[1] = derived[2]>>)
 =============================================================================
